@@ -235,6 +235,30 @@ theorem subsetIdx_rows (t u : Tab α β γ) (idx : List Nat) (h : t.WF) (hu : t.
     rw [idxSel_zip idx t.pos (t.rot.zip t.feat) (by simp [List.length_zip, h.1, h.2]),
       idxSel_zip idx t.rot t.feat h.2]
 
+/-- **Stepped and reversed slices** (`mole[::-1]`, `mole[7:1:-2]`, …): the same index list is applied to
+positions, orientations and features, so the result consists of whole rows of the input, in the order
+the slice enumerates them — for every bound, sign and size of the step. -/
+theorem subsetSliceStep_rows (t : Tab α β γ) (lo hi : Option Int) (step : Int) (h : t.WF) :
+    (t.subsetSliceStep lo hi step).rows = idxSel (pySliceIndices lo hi step t.pos.length) t.rows
+      ∧ (t.subsetSliceStep lo hi step).WF := by
+  simp only [subsetSliceStep, rows]
+  refine ⟨?_, ?_⟩
+  · rw [idxSel_zip _ t.pos (t.rot.zip t.feat) (by simp [List.length_zip, h.1, h.2]),
+      idxSel_zip _ t.rot t.feat h.2]
+  · have hl : ∀ {δ ε : Type} (idx : List Nat) (a : List δ) (b : List ε), a.length = b.length →
+        (idxSel idx a).length = (idxSel idx b).length := by
+      intro δ ε idx a b hab
+      induction idx with
+      | nil => simp [idxSel]
+      | cons i is ih =>
+        simp only [idxSel, List.filterMap_cons] at ih ⊢
+        by_cases hi' : i < a.length
+        · have hb : i < b.length := by omega
+          simp [List.getElem?_eq_getElem hi', List.getElem?_eq_getElem hb, ih]
+        · have hb : ¬ i < b.length := by omega
+          simp [List.getElem?_eq_none (by omega : a.length ≤ i), List.getElem?_eq_none (by omega : b.length ≤ i), ih]
+    exact ⟨hl _ _ _ h.1, hl _ _ _ h.2⟩
+
 /-! ## grouping partitions the rows -/
 
 theorem mem_distinctKeys (l : List Int) (k : Int) : k ∈ distinctKeys l ↔ k ∈ l := by
